@@ -2071,4 +2071,233 @@ theorem V6.fromStr_inv (input : Str) (o : Obj) (h : V6.fromStr input = .ok o) :
               exact ⟨rfl, hd.2.2.2, v6input, addr, hlen', hsplit, e1,
                 Or.inr ⟨sep, m, hs, hsep, hd.1, hd.2.1, hd.2.2.1⟩⟩
 
+/-! ### the IPv6 regex accepts the compressed text `str(IPv6Address(n))` -/
+
+/-- the text does not start with `:::` (the negative look-ahead of the regex), whatever follows a bare `::` -/
+def NoTripleHead (s : Str) : Prop :=
+  (∃ c t, s = c :: t ∧ c ≠ ':') ∨ (∃ c t, s = ':' :: ':' :: c :: t ∧ c ≠ ':') ∨ s = [':', ':']
+
+theorem isH_nil : isH [] = false := by decide
+
+theorem compress_form_aux (c0 c1 c2 c3 c4 c5 c6 c7 : Char) (t0 t1 t2 t3 t4 t5 t6 t7 : Str)
+    (H0 : isH (c0 :: t0) = true) (H1 : isH (c1 :: t1) = true) (H2 : isH (c2 :: t2) = true) (H3 : isH (c3 :: t3) = true)
+    (H4 : isH (c4 :: t4) = true) (H5 : isH (c5 :: t5) = true) (H6 : isH (c6 :: t6) = true) (H7 : isH (c7 :: t7) = true)
+    (k0 : c0 ≠ ':') (k1 : c1 ≠ ':') (k2 : c2 ≠ ':') (k3 : c3 ≠ ':') (k4 : c4 ≠ ':') (k5 : c5 ≠ ':') (k6 : c6 ≠ ':')
+    (k7 : c7 ≠ ':')
+    (L0 : t0.length ≤ 3) (L1 : t1.length ≤ 3) (L2 : t2.length ≤ 3) (L3 : t3.length ≤ 3) (L4 : t4.length ≤ 3)
+    (L5 : t5.length ≤ 3) (L6 : t6.length ≤ 3) (L7 : t7.length ≤ 3)
+    (st : Run) (hst : st.bestLen ≤ 1 ∨ ∃ s, st.bestStart = some s ∧ s + st.bestLen ≤ 8) :
+    let parts := compressWith st [c0 :: t0, c1 :: t1, c2 :: t2, c3 :: t3, c4 :: t4, c5 :: t5, c6 :: t6, c7 :: t7]
+    hexFormParts parts = true ∧ NoTripleHead (join [':'] parts) ∧ (join [':'] parts).length ≤ 39 := by
+  intro parts
+  simp only [parts]
+  unfold compressWith
+  by_cases hb : st.bestLen ≤ 1
+  · have : ¬ st.bestLen > 1 := by omega
+    simp only [this, if_false]
+    refine ⟨?_, Or.inl ⟨_, _, rfl, k0⟩, ?_⟩
+    · simp [hexFormParts, H0, H1, H2, H3, H4, H5, H6, H7]
+    · simp only [join, List.length_append, List.length_cons, List.length_nil]; omega
+  · rcases hst with h | ⟨s, hs, hle⟩
+    · exact absurd h hb
+    · have hgt : st.bestLen > 1 := by omega
+      simp only [hgt, if_true, hs, Option.getD_some]
+      generalize st.bestLen = l at *
+      have hsv : s = 0 ∨ s = 1 ∨ s = 2 ∨ s = 3 ∨ s = 4 ∨ s = 5 ∨ s = 6 := by omega
+      have hlv : l = 2 ∨ l = 3 ∨ l = 4 ∨ l = 5 ∨ l = 6 ∨ l = 7 ∨ l = 8 := by omega
+      rcases hsv with rfl | rfl | rfl | rfl | rfl | rfl | rfl <;>
+        rcases hlv with rfl | rfl | rfl | rfl | rfl | rfl | rfl <;>
+        first
+        | (exfalso; revert hle; decide)
+        | (simp only [Nat.succ_ne_self, ↓reduceIte, Nat.reduceAdd, List.length_cons, List.length_nil, Nat.zero_add,
+            Nat.reduceEqDiff, List.take_succ_cons, List.take_zero, List.cons_append, List.nil_append, List.drop_succ_cons,
+            List.drop_zero, List.drop_nil, List.take_nil, Nat.reduceLeDiff, List.append_nil]
+           refine ⟨?_, ?_, ?_⟩
+           · simp [hexFormParts, H0, H1, H2, H3, H4, H5, H6, H7, isH_nil]
+           · simp only [join, List.cons_append, List.nil_append, List.append_assoc]
+             first
+               | exact Or.inl ⟨_, _, rfl, k0⟩
+               | exact Or.inr (Or.inl ⟨_, _, rfl, by assumption⟩)
+               | exact Or.inr (Or.inr rfl)
+           · simp only [join, List.length_append, List.length_cons, List.length_nil]; omega)
+
+
+theorem toHex_cons (h : Nat) (hh : h < 65536) :
+    ∃ c t, toHex h = c :: t ∧ isH (c :: t) = true ∧ c ≠ ':' ∧ t.length ≤ 3 := by
+  have hp := toHex_props h hh
+  cases e : toHex h with
+  | nil => exact absurd e hp.1
+  | cons c t =>
+    rw [e] at hp
+    refine ⟨c, t, rfl, ?_, (hp.2.2 c (by simp)).2.1, by simpa using hp.2.1⟩
+    unfold isH
+    have : (c :: t).all isHexDigit = true := List.all_eq_true.mpr (fun x hx => (hp.2.2 x hx).1)
+    rw [this]
+    have := hp.2.1
+    simp only [List.length_cons] at this ⊢
+    simp; omega
+
+theorem runOk_shape (zs : List Bool) (st : Run) (h : runOk zs st = true) :
+    st.bestLen ≤ 1 ∨ ∃ s, st.bestStart = some s ∧ s + st.bestLen ≤ 8 := by
+  unfold runOk at h
+  by_cases hb : st.bestLen ≤ 1
+  · exact Or.inl hb
+  · simp only [hb, if_false] at h
+    cases hs : st.bestStart with
+    | none => rw [hs] at h; cases h
+    | some s =>
+      rw [hs] at h
+      simp only [Bool.and_eq_true, decide_eq_true_eq] at h
+      exact Or.inr ⟨s, rfl, h.1⟩
+
+theorem hexFormParts_nil : hexFormParts [] = false := by decide
+
+/-- the compressed text is accepted by `opt1 | opt3 … opt11`, does not start with `:::`, and is short -/
+theorem strV6_form (n : Nat) :
+    matchHexForm (strV6 n) = true ∧ NoTripleHead (strV6 n) ∧ (strV6 n).length ≤ 39 := by
+  have hl := hextets_lt n
+  simp only [hextets, List.mem_cons, List.not_mem_nil, or_false, forall_eq_or_imp, forall_eq] at hl
+  obtain ⟨l0, l1, l2, l3, l4, l5, l6, l7⟩ := hl
+  obtain ⟨c0, t0, e0, H0, k0, L0⟩ := toHex_cons _ l0
+  obtain ⟨c1, t1, e1, H1, k1, L1⟩ := toHex_cons _ l1
+  obtain ⟨c2, t2, e2, H2, k2, L2⟩ := toHex_cons _ l2
+  obtain ⟨c3, t3, e3, H3, k3, L3⟩ := toHex_cons _ l3
+  obtain ⟨c4, t4, e4, H4, k4, L4⟩ := toHex_cons _ l4
+  obtain ⟨c5, t5, e5, H5, k5, L5⟩ := toHex_cons _ l5
+  obtain ⟨c6, t6, e6, H6, k6, L6⟩ := toHex_cons _ l6
+  obtain ⟨c7, t7, e7, H7, k7, L7⟩ := toHex_cons _ l7
+  have hmem : ∀ p ∈ compressHextets ((hextets n).map toHex), ∀ c ∈ p, c ≠ ':' := by
+    intro p hp
+    rcases compressWith_mem _ _ p hp with rfl | hp
+    · intro c hc; simp at hc
+    · rw [List.mem_map] at hp
+      obtain ⟨g, hg, rfl⟩ := hp
+      exact fun c hc => ((toHex_props g (hextets_lt n g hg)).2.2 c hc).2.1
+  have key := compress_form_aux c0 c1 c2 c3 c4 c5 c6 c7 t0 t1 t2 t3 t4 t5 t6 t7 H0 H1 H2 H3 H4 H5 H6 H7
+    k0 k1 k2 k3 k4 k5 k6 k7 L0 L1 L2 L3 L4 L5 L6 L7
+    (runLoop {} 0 ([c0 :: t0, c1 :: t1, c2 :: t2, c3 :: t3, c4 :: t4, c5 :: t5, c6 :: t6, c7 :: t7].map (· == ['0'])))
+    (runOk_shape _ _ (runLoop_ok _ _ _ _ _ _ _ _))
+  unfold strV6 matchHexForm
+  unfold compressHextets at hmem ⊢
+  simp only [hextets, List.map, e0, e1, e2, e3, e4, e5, e6, e7] at hmem ⊢
+  simp only [List.map] at key
+  obtain ⟨hf, hh, hlen⟩ := key
+  refine ⟨?_, hh, hlen⟩
+  rw [splitOn_join ':' _ (by intro e; rw [e, hexFormParts_nil] at hf; cases hf) hmem]
+  exact hf
+
+
+theorem tripleColonAhead_of_head (a tail : Str) (h : NoTripleHead a) (ht : ∀ c, tail.head? = some c → c ≠ ':') :
+    tripleColonAhead (a ++ tail) = false := by
+  rcases h with ⟨c, t, rfl, hc⟩ | ⟨c, t, rfl, hc⟩ | rfl
+  · exact tripleColonAhead_cons c _ hc
+  · unfold tripleColonAhead
+    split
+    · rename_i x heq
+      simp only [List.cons_append, List.cons.injEq, true_and] at heq
+      exact absurd heq.1 hc
+    · rfl
+  · unfold tripleColonAhead
+    split
+    · rename_i x heq
+      cases tail with
+      | nil => simp at heq
+      | cons s m =>
+        simp only [List.cons_append, List.nil_append, List.cons.injEq, true_and] at heq
+        exact absurd heq.1 (ht s rfl)
+    · rfl
+
+/-- the IPv6 regex on an accepted pure-hex address text followed by nothing or a separator and ASCII digits -/
+theorem matchV6_of (a tail : Str) (mask : Option Str)
+    (hch : ∀ c ∈ a, isHexDigit c = true ∨ c = ':') (hform : matchHexForm a = true) (hhead : NoTripleHead a)
+    (ht : (tail = [] ∧ mask = none) ∨
+      ∃ sep m, tail = sep :: m ∧ mask = some m ∧ (sep = '/' ∨ isSpace sep = true) ∧ m ≠ [] ∧ ∀ c ∈ m, isDigit c = true) :
+    matchV6 (a ++ tail) = some (a, mask) := by
+  unfold matchV6
+  have h3 : tripleColonAhead (a ++ tail) = false := by
+    apply tripleColonAhead_of_head a tail hhead
+    intro c hc
+    rcases ht with ⟨rfl, _⟩ | ⟨sep, m, rfl, _, hsep, _⟩
+    · simp at hc
+    · simp only [List.head?_cons, Option.some.injEq] at hc
+      subst hc
+      rcases hsep with rfl | h
+      · decide
+      · rintro rfl; revert h; decide
+  have htw := takeWhile_append (p := fun c => !(decide (c = '/') || isSpace c)) a tail
+    (fun c hc => by
+      have := isSpace_hexColon c (hch c hc)
+      simp [this.1, this.2])
+    (fun c hc => by
+      rcases ht with ⟨rfl, _⟩ | ⟨sep, m, rfl, _, hsep, _⟩
+      · simp at hc
+      · simp only [List.head?_cons, Option.some.injEq] at hc
+        subst hc
+        rcases hsep with rfl | h
+        · simp
+        · simp [h])
+  simp only [h3, Bool.false_eq_true, if_false, htw.1, htw.2, hform, Bool.true_or, Bool.not_true]
+  rcases ht with ⟨rfl, rfl⟩ | ⟨sep, m, rfl, rfl, _, hne, hd⟩
+  · rfl
+  · simp only [fullDigits_digits m hne hd, if_true]
+
+/-- `IPv6Obj(text)` for `text = <blanks><str(ip)><sep><digits><blanks>`, `sep` a slash or a run of blanks -/
+theorem V6.fromStr_compressed (input : Str) (ip len : Nat) (m : Str) (hip : ip < 2 ^ 128) (hl : len ≤ 128)
+    (hne : m ≠ []) (hd : ∀ c ∈ m, isDigit c = true) (hv : ofDigits m = some len) (hm9 : m.length ≤ 9)
+    (hs : strip input = strV6 ip ++ '/' :: m ∨
+      ∃ ws, ws ≠ [] ∧ (∀ c ∈ ws, isSpace c = true) ∧ strip input = strV6 ip ++ ws ++ m) :
+    V6.fromStr input = .ok (mk6 ip len) := by
+  obtain ⟨hform, hhead, hlen39⟩ := strV6_form ip
+  have hea : ∀ c ∈ strV6 ip, isSpace c = false := fun c hc => (isSpace_hexColon c (strV6_chars ip c hc)).1
+  have hmsp : ∀ c ∈ m, isSpace c = false := fun c hc => isSpace_of_isDigit c (hd c hc)
+  have hns : ∀ c ∈ strV6 ip ++ '/' :: m, isSpace c = false := by
+    intro c hc
+    simp only [List.mem_append, List.mem_cons] at hc
+    rcases hc with h | h | h
+    · exact hea c h
+    · rw [h]; decide
+    · exact hmsp c h
+  have hsplit : splitWs (strip input) = [strV6 ip ++ '/' :: m] ∨ splitWs (strip input) = [strV6 ip, m] := by
+    rcases hs with hs | ⟨ws, hw1, hw2, hs⟩
+    · left; rw [hs]; unfold splitWs; exact splitWsAux_noSpace _ hns
+    · right; rw [hs]; exact splitWs_two _ ws m hea hw2 hw1 hmsp
+  have hg : ¬ (strV6 ip ++ '/' :: m).length > Gen.ipv6MaxStrLen := by
+    rw [List.length_append]; unfold Gen.ipv6MaxStrLen
+    simp only [List.length_cons]; omega
+  have hnet : stdV6Net false (strV6 ip ++ '/' :: m) = .ok (ip &&& ipIntFromPrefix 128 len, len) := by
+    unfold stdV6Net splitOptionalNetmask
+    rw [splitOn_slash _ _ (strV6_ne ip '/' (by decide) (by decide))
+      (fun c hc => ne_of_isDigit c '/' (by decide) (hd c hc))]
+    simp only [bind, Except.bind, stdV6Addr_strV6 ip hip, makeNetmask6_digits m len hne hd hv hl]
+    exact finishNet_false 128 ip len
+  have hmatch := matchV6_of (strV6 ip) ('/' :: m) (some m) (strV6_chars ip) hform hhead
+    (Or.inr ⟨'/', m, rfl, rfl, Or.inl rfl, hne, hd⟩)
+  unfold V6.fromStr
+  rcases hsplit with h | h <;> rw [h] <;>
+    simp only [if_neg hg, strip_noSpace _ hns, hmatch, bind, Except.bind, stdV6Addr_strV6 ip hip, hnet] <;> rfl
+
+
+/-- `IPv6Obj(text)` for `text = <blanks><str(ip)><blanks>`: prefix length 128 -/
+theorem V6.fromStr_compressed_plain (input : Str) (ip : Nat) (hip : ip < 2 ^ 128) (hs : strip input = strV6 ip) :
+    V6.fromStr input = .ok (mk6 ip 128) := by
+  obtain ⟨hform, hhead, hlen39⟩ := strV6_form ip
+  have hea : ∀ c ∈ strV6 ip, isSpace c = false := fun c hc => (isSpace_hexColon c (strV6_chars ip c hc)).1
+  have hg : ¬ (strV6 ip).length > Gen.ipv6MaxStrLen := by unfold Gen.ipv6MaxStrLen; omega
+  have hd128 : toDec 128 = "128".toList := by
+    have := toDec_cases 128 (by omega)
+    simp only [show ¬ (128 < 10) by omega, show ¬ (128 < 100) by omega, false_and, and_false, false_or, Nat.reduceDiv,
+      Nat.reduceMod] at this
+    rw [this.2]; rfl
+  have hnet : stdV6Net false (strV6 ip ++ "/128".toList) = .ok (ip &&& ipIntFromPrefix 128 128, 128) := by
+    have := stdV6Net_cidr false ip 128 hip (by omega) (fun h => by cases h)
+    rw [hd128] at this; exact this
+  have hmatch := matchV6_of (strV6 ip) [] none (strV6_chars ip) hform hhead (Or.inl ⟨rfl, rfl⟩)
+  rw [List.append_nil] at hmatch
+  unfold V6.fromStr
+  rw [hs]
+  unfold splitWs
+  rw [splitWsAux_noSpace _ hea]
+  simp only [if_neg hg, strip_noSpace _ hea, hmatch, bind, Except.bind, stdV6Addr_strV6 ip hip, hnet]
+  rfl
+
 end Ccp.IPText
